@@ -13,7 +13,7 @@ open Conv
 open Drv
 
 let str_of_codes (l : n list) : string =
-  String.concat "" (List.map (fun c -> String.make 1 (Char.chr (Z.to_int (z_of_n c)))) l)
+  String.concat "" (List.map (fun c -> String.make 1 (Char.chr (ZA.to_int (z_of_n c)))) l)
 
 (* rows of the regenerated table: (type, method, exported, method_ok) *)
 let table = List.map (fun (((t, m), e), ok) -> (str_of_codes t, str_of_codes m, e, ok)) lock_table_x
